@@ -10,6 +10,7 @@ import (
 	"sync"
 	"time"
 
+	"a0verif/instr"
 	"a0verif/plan"
 	"a0verif/ref"
 )
@@ -28,6 +29,11 @@ type histVerdict struct {
 }
 
 func opBrief(op *plan.Op) string {
+	if op.J != 0 {
+		c := *op
+		c.J = 0
+		return fmt.Sprintf("[after %v of simulated idle time] %s", time.Duration(op.J)*time.Millisecond, opBrief(&c))
+	}
 	switch op.K {
 	case "ent":
 		return fmt.Sprintf("NewMnemonicByEntropy(%d bytes nil=%v cap+%d, lang %d)", len(op.Ent)/2, op.Nil, op.Cap, op.Lang)
@@ -90,11 +96,14 @@ func (g *c13Engine) judgeHistory(hp *histPlan, res *histResult, p Proc) (*histVe
 
 func (g *c13Engine) run(hp *histPlan) (*histResult, *histVerdict, error) {
 	var res histResult
-	p, err := g.e.RunJSON(g.bin, "hist", hp, &res, 120*time.Second)
+	p, err := g.e.RunJSON(g.bin, "hist", hp, &res, 120*time.Second, hp.Env...)
 	if err != nil {
 		return nil, nil, err
 	}
 	v, err := g.judgeHistory(hp, &res, p)
+	if v != nil && len(hp.Env) > 0 {
+		v.Detail += fmt.Sprintf(" [process environment: %s]", strings.Join(hp.Env, " "))
+	}
 	return &res, v, err
 }
 
@@ -246,6 +255,18 @@ func CheckC13(e *Env) (int, error) {
 			plans = append(plans, &histPlan{Source: "hook", Hold: true, Ops: []plan.Op{vb, va, vb, vv}})
 		}
 	}
+	// (1c) idle periods: a language's table warm, the caller idle for d, the same and another language asked again
+	for _, a := range AllLangs {
+		for k, d := range []int64{31000, 61000, 3601000, 90000000, 34560000000} {
+			b := AllLangs[(a+1+k)%len(AllLangs)]
+			late, lateB := probes[a][0], probes[b][0]
+			late.J, lateB.J = d, d
+			kindOf[len(plans)] = "idle"
+			plans = append(plans, &histPlan{Source: "hook", Hold: true, Ops: []plan.Op{probes[a][0], late, probes[a][0], probes[a][2]}})
+			kindOf[len(plans)] = "idle"
+			plans = append(plans, &histPlan{Source: "hook", Hold: true, Ops: []plan.Op{probes[a][0], probes[b][0], lateB, probes[a][0], probes[a][1], late, probes[b][2]}})
+		}
+	}
 	pairs := len(plans)
 	if err := solo.All(pool); err != nil {
 		return 2, err
@@ -297,6 +318,13 @@ func CheckC13(e *Env) (int, error) {
 			op := pick()
 			v := op
 			switch {
+			case op.K == "seed" && r.Intn(4) == 0:
+				// two calls whose password||"mnemonic"||passphrase strings coincide: (M, a+"mnemonic"+b) vs (M+"mnemonic"+a, b)
+				a, b := []string{"", " ", " #", "x"}[r.Intn(4)], []string{"2", "", "TREZOR", "\u00e9"}[r.Intn(4)]
+				setP(&op, a+"mnemonic"+b)
+				v = op
+				setM(&v, op.Mnemonic()+"mnemonic"+a)
+				setP(&v, b)
 			case op.K == "seed" && r.Intn(3) == 0 && len(op.Passphrase())+len(op.Mnemonic()) > 0:
 				// the same concatenation split elsewhere: (M, P) vs (M+P[:k], P[k:]) or (M[:n-k], M[n-k:]+P)
 				m, pp := op.Mnemonic(), op.Passphrase()
@@ -334,6 +362,11 @@ func CheckC13(e *Env) (int, error) {
 			k := r.Range(1, len(ops)-1)
 			ops[k] = ops[0]
 		}
+		if r.Intn(4) == 0 && len(ops) >= 2 { // the caller is idle for a while between calls (clock seam: simulated time passes)
+			for j := 0; j < r.Range(1, 3); j++ {
+				ops[r.Range(1, len(ops)-1)].J = JumpVals[r.Intn(len(JumpVals))]
+			}
+		}
 		for j := range ops { // the simulated caller's buffer habits are drawn per history
 			if ops[j].K == "ent" && !ops[j].Nil {
 				ops[j].Cap = []int{0, 1, 16, 64}[r.Intn(4)]
@@ -365,6 +398,28 @@ func CheckC13(e *Env) (int, error) {
 		}
 		kindOf[len(plans)] = "long"
 		plans = append(plans, &histPlan{Source: "hook", Hold: false, Ops: ops})
+	}
+	// the environment is no argument: every variable the tree is seen to read is set, in turn, to plausible
+	// values, and the probe calls of every language (unsupported values included) must come out as they do alone
+	// in the ambient environment
+	envNames, envOpaque := instr.EnvNames(e.RepoCopy())
+	envVals := append([]string{"1", "true", "0", "C", "en_US.UTF-8", "ja_JP.UTF-8", "ko_KR.UTF-8", "zh_CN.UTF-8", "zh_TW.UTF-8",
+		"fr_FR.UTF-8", "it_IT.UTF-8", "es_ES.UTF-8", "cs_CZ.UTF-8", "pt_BR.UTF-8"}, instr.EnvValueCandidates(e.RepoCopy())...)
+	envRuns := 0
+	for _, name := range envNames {
+		for _, val := range envVals {
+			var ops []plan.Op
+			for _, l := range pairLangs {
+				ops = append(ops, probes[l][2], probes[l][0], probes[l][1])
+			}
+			r := plan.NewRand(plan.Derive(e.Seed, "C13/env", uint64(envRuns)))
+			for k := 0; k < 12; k++ {
+				ops = append(ops, pool[r.Intn(len(pool))])
+			}
+			kindOf[len(plans)] = "env"
+			plans = append(plans, &histPlan{Source: "hook", Hold: true, Ops: ops, Env: []string{name + "=" + val}})
+			envRuns++
+		}
 	}
 	var mu sync.Mutex
 	var viols []*Violation
@@ -474,26 +529,29 @@ func CheckC13(e *Env) (int, error) {
 		}
 	}
 	cov := map[string]interface{}{
-		"evaluations":           len(plans),
-		"distinct_nontrivial":   len(distinct),
-		"rule":                  "a case = one history (1-40 exported calls; a few histories of 8000 calls) executed by a single goroutine in a fresh process, every outcome compared with the outcome of the same call alone in a fresh process of the same build; caller-owned buffers (entropy incl. spare capacity) and returned seeds/strings re-inspected after every later call. Enumerated: all 12x12 ordered pairs of first-used Language values x 3 first-op kinds x 3 second-op kinds; every supported language's valid phrase asked under each of the 11 other Language values before and after its acceptance. Non-trivial: >= 2 calls on a common Language value; distinct by digest of the call sequence.",
-		"exhaustive":            false,
-		"exhaustive_parts":      "ordered pairs of first-used languages (10 supported + 2 unsupported) x {validate valid, validate invalid, generate}^2",
-		"samples":               samples,
-		"runs":                  len(plans),
-		"distinct_histories":    len(distinct),
-		"history_kinds":         byKind,
-		"sim_steps_total":       totalOps,
-		"sim_time_note":         "no clock in the system; simulated time is counted in history operations",
-		"solo_oracle_processes": solo.Procs,
-		"pool_calls":            len(pool),
-		"scribbles":             scribbles,
-		"reinspections":         reinspects,
-		"device_reads":          devReads,
-		"faults_fired":          fired,
-		"probes":                probesHit,
-		"raw_violations":        len(viols),
-		"outcome_digest":        od.String(),
+		"evaluations":                            len(plans),
+		"distinct_nontrivial":                    len(distinct),
+		"rule":                                   "a case = one history (1-40 exported calls; a few histories of 8000 calls) executed by a single goroutine in a fresh process, every outcome compared with the outcome of the same call alone in a fresh process of the same build; caller-owned buffers (entropy incl. spare capacity) and returned seeds/strings re-inspected after every later call. Enumerated: all 12x12 ordered pairs of first-used Language values x 3 first-op kinds x 3 second-op kinds; every supported language's valid phrase asked under each of the 11 other Language values before and after its acceptance. Non-trivial: >= 2 calls on a common Language value; distinct by digest of the call sequence.",
+		"exhaustive":                             false,
+		"exhaustive_parts":                       "ordered pairs of first-used languages (10 supported + 2 unsupported) x {validate valid, validate invalid, generate}^2",
+		"samples":                                samples,
+		"runs":                                   len(plans),
+		"distinct_histories":                     len(distinct),
+		"history_kinds":                          byKind,
+		"sim_steps_total":                        totalOps,
+		"sim_time_note":                          "no clock in the system; simulated time is counted in history operations",
+		"solo_oracle_processes":                  solo.Procs,
+		"pool_calls":                             len(pool),
+		"environment_variables_read_by_the_tree": envNames,
+		"environment_reads_with_opaque_names":    envOpaque,
+		"histories_with_environment_set":         envRuns,
+		"scribbles":                              scribbles,
+		"reinspections":                          reinspects,
+		"device_reads":                           devReads,
+		"faults_fired":                           fired,
+		"probes":                                 probesHit,
+		"raw_violations":                         len(viols),
+		"outcome_digest":                         od.String(),
 	}
 	if err := e.WriteEvidence("C13", "exploration", cov, []string{
 		"solo oracle: the call alone in a fresh process of the same (plain) build defines 'a function of its arguments alone'",
